@@ -543,6 +543,35 @@ func ruleC01Mapper(c *Ctx) {
 			"UTF16OffsetToByteOffset(lines[pos.Line], pos.Character): a column past the line end stops at the line end",
 			"the UTF-16 column is not converted against the text of its own line (lines[pos.Line]): a column past the line end runs into the following lines instead of clamping to the line end")
 	}
+	// ... and that holds for every conversion of a protocol column in the module, wherever it is written: the
+	// text handed to the converter is one line (an element of a list of lines, a slice of the text with an upper
+	// bound, a line variable), never an open-ended rest of the document
+	ciC := buildConc(c)
+	nAll := 0
+	for _, f := range c.P.ModuleFuncs() {
+		for _, cv := range findCalls(f, func(cal *ssa.Function) bool { return calleeNameIs(cal, "lsputil.UTF16OffsetToByteOffset") }) {
+			fromChar := false
+			for v := range sliceUp(ciC, cv.Common().Args[1], f) {
+				if fa, ok := v.(*ssa.FieldAddr); ok && fieldVarOfAddr(fa).Name() == "Character" && typeHasSuffix(fa.X.Type(), "protocol.Position") {
+					fromChar = true
+				}
+				if fl, ok := v.(*ssa.Field); ok && typeHasSuffix(fl.X.Type(), "protocol.Position") {
+					if st, ok := fl.X.Type().Underlying().(*types.Struct); ok && st.Field(fl.Field).Name() == "Character" {
+						fromChar = true
+					}
+				}
+			}
+			if !fromChar {
+				continue
+			}
+			nAll++
+			open := openEndedText(c, cv.Common().Args[0], 0)
+			c.check(open == "", "C01-CONV", funcName(f), "protocol column converted against one line", cv.Pos(),
+				"the text argument of the column conversion is bounded by its line",
+				"a protocol column is converted against "+open+": a column past the line end runs across the line break into the following lines instead of clamping to the line end")
+		}
+	}
+	c.census("C01-CONV", "conversions of a protocol column in the module", nAll, 3)
 	// line past the end maps to the end of the document
 	guard := false
 	for _, b := range toByte.Blocks {
@@ -826,4 +855,52 @@ func ruleCacheFresh(c *Ctx, h *ssa.Function, docStore ssa.CallInstruction, docFi
 			}
 		}
 	}
+}
+
+// openEndedText: the string value is an open-ended rest of a longer text (`text[i:]`), directly, through a
+// parameter (all call sites) or through a helper's result; returns a description, or "" when the text is bounded
+// (or of a form the rule does not know: silence).
+func openEndedText(c *Ctx, v ssa.Value, depth int) string {
+	if depth > 3 {
+		return ""
+	}
+	switch x := stripConv(v).(type) {
+	case *ssa.Slice:
+		if b, ok := x.X.Type().Underlying().(*types.Basic); ok && b.Info()&types.IsString != 0 && x.High == nil {
+			return "an open-ended slice of the text (" + c.P.pos(x.Pos()) + ")"
+		}
+	case *ssa.Phi:
+		for _, e := range x.Edges {
+			if d := openEndedText(c, e, depth+1); d != "" {
+				return d
+			}
+		}
+	case *ssa.Parameter:
+		f := x.Parent()
+		for i, q := range f.Params {
+			if q != x {
+				continue
+			}
+			for _, site := range (cgView{c}).callersOf(f) {
+				if i < len(site.Common().Args) {
+					if d := openEndedText(c, site.Common().Args[i], depth+1); d != "" {
+						return d
+					}
+				}
+			}
+		}
+	case *ssa.Call:
+		if cal := x.Call.StaticCallee(); cal != nil && cal.Blocks != nil && inModule(cal) && cal.Signature.Results().Len() == 1 {
+			for _, b := range cal.Blocks {
+				for _, ins := range b.Instrs {
+					if r, ok := ins.(*ssa.Return); ok && len(r.Results) == 1 {
+						if d := openEndedText(c, unspillResult(r.Results[0], b), depth+1); d != "" {
+							return d
+						}
+					}
+				}
+			}
+		}
+	}
+	return ""
 }
